@@ -149,6 +149,8 @@ def jobs(tier):
         for f in [n for n, _ in menu('small')]:
             js.append({'name': 'mixed 3 lines first=%s' % f, 'harness': (H, 'h_mixed'),
                        'params': {'nlines': 3, 'menu_name': 'small', 'fixed': [f], 'inc_len': 3, 'out_len': 2}, 'split': 4})
+    from . import project
+    js += project.jobs('C12', tier)
     return js
 
 
@@ -156,6 +158,8 @@ BOUNDS = {'quick': 'first-line detection: every buffer of 0-5 bytes (bytes 0-4: 
                    '(include / run / write / temp / captured tag content), each line with its own LF or CRLF, included file <=3 bytes and '
                    'command output <=2 bytes over {o,LF,CR}',
           'thorough': 'buffers 0-7 bytes; scenarios + one free line; all 3-line sources over the small menu; included file 4 bytes, output 3 bytes'}
+from . import project as _project
+BOUNDS = {k: v + _project.bounds_note('C12', k) for k, v in BOUNDS.items()}
 ASSUMPTIONS = ['D1: CR occurs only immediately before LF in every text input; ordinary source lines and write arguments contain no CR',
                'first lines longer than the std BufReader buffer (8 KiB) are outside the bound']
 COVERS_REQUIRED = ['fault_while_reading_source', 'leaf_crlf', 'leaf_lf', 'mixed_crlf', 'mixed_lf', 'temp', 'leaf_long']
